@@ -387,12 +387,32 @@ impl C17P {
         let (name, ctxs) = template(ctx.tier, idx, ctx.seed);
         let max_depth = ctx.tier.pick(32usize, 48) / ctxs.len();
         let mut prev: Option<Meas> = None;
+        let mut prev_elapsed: Option<f64> = None;
         let mut depth = 4 / ctxs.len().min(2);
         let step = depth;
         while depth <= max_depth {
             let text = nest(&ctxs, depth);
+            let started = std::time::Instant::now();
             let m = measure(&text, depth);
+            let elapsed = started.elapsed().as_secs_f64();
             ctx.eval();
+            // Backstop for work that no counter sees (a traversal outside the hooked functions):
+            // one more nesting step multiplies the time by more than 30 and takes it beyond 8
+            // seconds, for an input of a few hundred tokens that normally parses in milliseconds.
+            // Four orders of magnitude of margin, and relative to a measurement taken a moment
+            // before on the same machine - load does not produce that.
+            if let Some(pe) = prev_elapsed {
+                if elapsed > 8.0 && pe > 0.0005 && elapsed > 30.0 * pe {
+                    ctx.violation(
+                        "time-blowup:nested-template",
+                        &format!("template `{name}`: parsing took {pe:.3} s at the previous depth and {elapsed:.1} s at depth {depth} ({} tokens) while every counter stayed within its cap", m.tokens),
+                        Json::obj().set("template", Json::s(&name)).set("depth", Json::Int(depth as i64)).set("tokens", Json::Int(m.tokens as i64)).set("input", Json::s(&clip(&text, 400))),
+                    );
+                    return;
+                }
+            }
+            prev_elapsed = Some(elapsed);
+            ctx.max("templates_max_parse_ms", (elapsed * 1000.0) as u64);
             if m.tokens >= 32 {
                 ctx.nontrivial(hash_str(&format!("tpl/{name}/{depth}")));
             }
